@@ -34,6 +34,7 @@ type Engine struct {
 	typeIDs map[string]int64
 	typeNames []string
 	tags    string
+	curMode string
 }
 
 func relPkg(path string) string {
@@ -183,7 +184,7 @@ func (e *Engine) override(t types.Type) (*TypeOverride, string) {
 	t = types.Unalias(t)
 	if n, ok := t.(*types.Named); ok {
 		q := qualName(n)
-		if o, ok := e.db.Types[q]; ok {
+		if o, ok := e.db.Types[q]; ok && (o.Mode == "" || o.Mode == e.curMode) {
 			return o, q
 		}
 	}
